@@ -272,7 +272,9 @@ def _check(prop, tier, seed, py, modname, plan, scratch, ev_path, t0):
             ok, doc = _replay(py, t, r, scratch, twin=False)
             rec = (doc.get('native') or {}).get('rec') or {}
             why = rec.get('why') or ((doc.get('native') or {}).get('exc') or '').strip().split('\n')[-1] or ''
-            if ok is False:
+            if ok is False and (doc.get('native') or {}).get('exc_in_harness'):
+                harness_errors.append('slice %s: the harness itself raised: %s' % (sid, ((doc.get('native') or {}).get('exc') or '')[-600:]))
+            elif ok is False:
                 fkey = rec.get('fkey') or ('%s:%s' % (sid, json.dumps(doc.get('args'))))
                 if rec.get('timeout_only'):
                     cond['status'] = 'not_exhausted'
